@@ -29,7 +29,7 @@ pub fn ladder_ops() -> BoxedStrategy<Req> {
 pub fn strategy() -> BoxedStrategy<Req> {
     prop_oneof![
         8 => (u256_interesting(), u()).prop_map(|(k, u)| Req::new("x.x25519", vec![k.to_vec(), u.to_vec()])),
-        6 => (0u8..3, u256_interesting(), u()).prop_map(|(kind, k, u)| Req::new("x.dh", vec![vec![kind], k.to_vec(), u.to_vec()])),
+        6 => (0u8..4, u256_interesting(), u()).prop_map(|(kind, k, u)| Req::new("x.dh", vec![vec![kind], k.to_vec(), u.to_vec()])),
         2 => (u256_interesting(), u256_interesting()).prop_map(|(a, b)| Req::new("x.two_party", vec![a.to_vec(), b.to_vec()])),
         4 => (u(), scalar_unreduced255()).prop_map(|(u, s)| Req::new("mt.mul", vec![u.to_vec(), s.to_vec()])),
         3 => (u(), 0u16..=300, vec(any::<u8>(), 38), 0u8..4).prop_map(|(u, n, mut bits, lead)| {
